@@ -116,6 +116,15 @@ static void iauth_class_free_rules(void)
     xfree(conf.rules.vec);
 }
 
+CONF_UPDATE_HOOK(iauth_class_conf_changed);
+
+/** Handle an in-place change of a rule or of a setting inside a rule. */
+static CONF_UPDATE_HOOK(iauth_class_part_changed)
+{
+    iauth_class_conf_changed(&conf.root->base);
+    (void)node_;
+}
+
 CONF_UPDATE_HOOK(iauth_class_conf_changed)
 {
     struct iauth_class_rules new_rules;
@@ -124,6 +133,7 @@ CONF_UPDATE_HOOK(iauth_class_conf_changed)
     struct conf_node_object *obj;
     struct conf_node_string *str;
     struct set_node *it;
+    struct set_node *jt;
     unsigned int n_rules;
     unsigned int o_idx = 0;
     int res;
@@ -138,6 +148,17 @@ CONF_UPDATE_HOOK(iauth_class_conf_changed)
         if (base->type != CONF_OBJECT)
             continue;
         obj = set_node_data(it);
+
+        /* The section's own hook only runs when rules come or go;
+         * watch each rule and its settings for changes as well.
+         */
+        if (!obj->base.hook)
+            obj->base.hook = iauth_class_part_changed;
+        for (jt = set_first(&obj->contents); jt != NULL; jt = set_next(jt)) {
+            base = set_node_data(jt);
+            if (!base->hook)
+                base->hook = iauth_class_part_changed;
+        }
 
         /* Load the new rule. */
         rule = &new_rules.vec[new_rules.used];
